@@ -94,15 +94,21 @@ Theorem C01_callers_agree_partial : forall cs st n L es s,
 Proof. exact callers_agree. Qed.
 Print Assumptions C01_callers_agree_partial.
 
-Theorem C01_callers_agree_pairwise_partial : forall cs st n L es s t1 th1 ce1 t2 th2 ce2,
+(* a consequence of the theorem above (same assumptions; stated as a Remark so that the costly
+   Print Assumptions traversal is not repeated) *)
+Remark C01_callers_agree_pairwise_partial : forall cs st n L es s t1 th1 ce1 t2 th2 ce2,
   canon0 n L cs -> runs (ok3 n) (init_state cs st) es s ->
   thread_at s t1 th1 -> touches n (cfg th1) -> c_prog (cfg th1) = PManage -> tpc th1 = PDone ROk ->
   seen th1 = Some ce1 -> c_due ce1 = false ->
   thread_at s t2 th2 -> touches n (cfg th2) -> c_prog (cfg th2) = PManage -> tpc th2 = PDone ROk ->
   seen th2 = Some ce2 -> c_due ce2 = false ->
   ce1 = ce2.
-Proof. exact callers_agree_pairwise. Qed.
-Print Assumptions C01_callers_agree_pairwise_partial.
+Proof.
+  intros cs st n L es s t1 th1 ce1 t2 th2 ce2 H0 R A1 A2 A3 A4 A5 A6 B1 B2 B3 B4 B5 B6.
+  pose proof (C01_callers_agree_partial _ _ _ _ _ _ H0 R _ _ _ A1 A2 A3 A4 A5 A6) as X.
+  pose proof (C01_callers_agree_partial _ _ _ _ _ _ H0 R _ _ _ B1 B2 B3 B4 B5 B6) as Y.
+  congruence.
+Qed.
 
 (** F3, all clauses, for callers without a fault of their own (partial: canonical spellings; the
     restrictions [ok3] and [okm]: requests on the name not cancelled, existence checks not
@@ -121,14 +127,18 @@ Proof. exact callers_agree_not_due. Qed.
 Print Assumptions C01_callers_agree_not_due_partial.
 
 (** ... hence any two of them hold the same certificate, which is not due *)
-Theorem C01_callers_agree_not_due_pairwise_partial : forall cs st n L es s t1 th1 t2 th2,
+Remark C01_callers_agree_not_due_pairwise_partial : forall cs st n L es s t1 th1 t2 th2,
   canon0 n L cs -> (forall c, In c cs -> touches n c -> c_issdue c = false) -> stored_match st n ->
   runs (ok3m n) (init_state cs st) es s ->
   thread_at s t1 th1 -> touches n (cfg th1) -> c_prog (cfg th1) = PManage -> tpc th1 = PDone ROk -> flt th1 = false ->
   thread_at s t2 th2 -> touches n (cfg th2) -> c_prog (cfg th2) = PManage -> tpc th2 = PDone ROk -> flt th2 = false ->
   exists ce, seen th1 = Some ce /\ seen th2 = Some ce /\ c_due ce = false.
-Proof. exact callers_agree_not_due_pairwise. Qed.
-Print Assumptions C01_callers_agree_not_due_pairwise_partial.
+Proof.
+  intros cs st n L es s t1 th1 t2 th2 H0 Hnd Hsm R A1 A2 A3 A4 A5 B1 B2 B3 B4 B5.
+  destruct (C01_callers_agree_not_due_partial _ _ _ _ _ _ H0 Hnd Hsm R _ _ A1 A2 A3 A4 A5) as (c1 & S1 & D1 & X1).
+  destruct (C01_callers_agree_not_due_partial _ _ _ _ _ _ H0 Hnd Hsm R _ _ B1 B2 B3 B4 B5) as (c2 & S2 & D2 & X2).
+  rewrite X1 in X2. inversion X2; subst. eauto.
+Qed.
 
 (** the hypotheses are met by a run over a due bundle: the first caller renews while the second
     one, which has seen the due certificate, queues for the lock; it then finds the renewal done,
